@@ -261,6 +261,17 @@ TRIAL_RULE = ("a case = one trial: a fresh primitive and a seeded population of 
 
 
 def c03(tier, seed):
+    d = _c03(tier, seed)
+    q = tier == "quick"
+    # a locker held between announcing itself and enqueueing for far longer than any plausible bound on the wait for it (1.2..2 s, a handful of times per run),
+    # while the owner releases through the deferred unlock: however long it takes, the release must reach that locker
+    for j, thr in enumerate((2, 4) if q else (2, 3, 4, 8)):
+        d["runs"].append(fb("h_sync", "mon", "mutex", seed + 31, 80 + j, thr, mode="stall", stall_point="WAIT_MPSC_PRE_PUSH", stall_every=3000 if q else 1500,
+                            stall_us_lo=1200000, stall_us_hi=2000000, trials=8 if q else 40, livelock_prop="C03"))
+    return d
+
+
+def _c03(tier, seed):
     return dict(runs=fb_plan(tier, seed, "h_sync", "mutex", MUTEX_STALLS, 24, 150, tsan=True, extra=dict(livelock_prop="C03")),
                 rule=TRIAL_RULE + "Oracles: occupancy counter (atomic) must be 0 on entry, plain payload pair pa==pb and section count (TSan judges payload "
                 "races), trylock never context-switches, mutex counter back to 1, stranded locker at logical quiescence. distinct_nontrivial = distinct "
@@ -359,7 +370,7 @@ def c01(tier, seed):
     # the deferred-unlock path of cond wait / multi-channel wait (a switch while a switch is being completed)
     q = tier == "quick"
     k = 700
-    for sp in ("MPSC_MID", "WAIT_MPSC_PRE_PUSH"):
+    for sp in ("MPSC_MID", "WAIT_MPSC_PRE_PUSH", "SWITCH_PRE"):
         for thr in ((4, 8) if q else (2, 4, 8, 16)):
             k += 1
             runs.append(fb("h_sync", "mon", "cond", seed, k, thr, mode="stall", stall_point=sp, stall_every=5, stall_us_lo=50, stall_us_hi=1500,
@@ -367,6 +378,11 @@ def c01(tier, seed):
             k += 1
             runs.append(fb("h_chan", "mon", "multi", seed, k, thr, mode="stall", stall_point=sp, stall_every=5, stall_us_lo=50, stall_us_hi=1500,
                            trials=4 if q else 30, livelock_prop="C01"))
+    # finished-first joins under ASan with the joiner held right after it has handed the finished fiber back
+    for sp in ("SCHEDULED", "JOIN_CLAIMED"):
+        k += 1
+        runs.append(fb("h_join", "asan", "join", seed, k, 4, mode="stall", stall_point=sp, stall_every=3, stall_us_lo=50, stall_us_hi=1500,
+                       trials=40 if q else 300, drivers=8, livelock_prop="C01"))
     return dict(runs=runs,
                 rule="a case = one seeded random program: 8..120 worker fibers each running 10..60 random actions from a 15-entry menu (yield, mutex, "
                 "semaphore post/wait, rwlock, cond ticket, multi-channel, bounded/unbounded channel sends to single receivers, create+join, "
@@ -402,7 +418,16 @@ def c02_full(tier, seed):
                                 trials=60 if q else 400, drivers=12, livelock_prop="C02"))
     k += 1
     d["runs"].append(fb("h_join", "mon", "join", seed, k, 8, mode="jitter", trials=80 if q else 600, drivers=12, livelock_prop="C02"))
-    d["min_events"].update({"steals": 50, "rt_programs": 4, "join_trials": 500})
+    # wake-ups that come from the event side (timer, descriptor readiness): the waiter's lock must stay held until its switch has
+    # completed, otherwise the entry is taken and run while the fiber is still running where it suspends itself
+    for thr in ((2, 4) if q else (2, 4, 8, 16)):
+        k += 1
+        d["runs"].append(fb("h_sleep", "mon", "sleep", seed, k, thr, mode="stall", stall_point="SLEEP_REGISTERED", stall_every=5, stall_us_lo=4000, stall_us_hi=16000,
+                            trials=4 if q else 20, scenario=5, livelock_prop="C02"))
+        k += 1
+        d["runs"].append(fb("h_io", "mon", "io", seed, k, thr, mode="stall", stall_point="FD_WAIT_REGISTERED", stall_every=3, stall_us_lo=50, stall_us_hi=1500,
+                            trials=16 if q else 100, big=0, livelock_prop="C02", timeout=600))
+    d["min_events"].update({"steals": 50, "rt_programs": 4, "join_trials": 500, "SLEEP_REGISTERED": 100, "FD_WAIT_REGISTERED": 100})
     return d
 
 
@@ -500,6 +525,9 @@ def c11(tier, seed):
     for i, sub in enumerate(["bounded", "unbounded", "sp", "multi", "signal"]):
         runs += fb_plan(tier, seed + i * 101, "h_chan", sub, stalls[sub], 8, 60, threads_q=(1, 2, 4, 16), extra=dict(livelock_prop="C11"),
                         stall_every=4, tsan=(sub in ("bounded", "unbounded")), pinned=(sub == "bounded"))
+    # raw-speed acknowledged ping-pong on two kernel threads (real store-buffer timing; the stuck-state rule needs no hooks)
+    for j, mode in enumerate(("nohook", "nohook", "monitor") if q else ("nohook",) * 6 + ("monitor",) * 2):
+        runs.append(fb("h_chan", "mon", "ack", seed + 977, 60 + j, 2, mode=mode, trials=1 if q else 3, ack_msgs=150000 if q else 400000, livelock_prop="C11"))
     return dict(runs=runs,
                 rule="a case = one channel life: seeded capacity 2..16, 1..16 senders (1 for the single-producer channel) x 50..450 unique messages, "
                 "receivers as the type allows (1; 1..6 for the multi channel), with or without a ready signal, or 200..1000 raise/wait ping-pong "
